@@ -21,17 +21,23 @@ import urllib.parse
 # ---------------------------------------------------------------------------------------------- wsgi.input
 class PieceStream:
     """read(n) returns the next <= n bytes of the current piece and never crosses a piece end (a short read, legal
-    for wsgi.input); b'' after the last piece.  Records every n asked for."""
+    for wsgi.input); b'' after the last piece.  Records every n asked for.  A reader that asks more than 200 times
+    at EOF does not terminate: that hang is made a visible failure (RuntimeError) instead of a path that runs into
+    the engine's per-path timeout."""
 
     def __init__(self, pieces):
         self.pieces = [p for p in pieces if len(p)]
         self.i = 0
         self.off = 0
         self.asked = []
+        self.eof_reads = 0
 
     def read(self, n=-1):
         self.asked.append(n)
         if self.i >= len(self.pieces):
+            self.eof_reads += 1
+            if self.eof_reads > 200:
+                raise RuntimeError("wsgi.input.read() called more than 200 times at EOF: the reader does not terminate (hang)")
             return b""
         piece = self.pieces[self.i]
         rest = len(piece) - self.off
@@ -45,14 +51,15 @@ class PieceStream:
         return out
 
 
-def chunked_pieces(pieces):
+def chunked_pieces(pieces, ext=b""):
     """Legal chunked transfer coding of the concatenated pieces, one chunk per non-empty piece, as a piece list
-    (size lines and CRLFs are pieces of their own, so framing stays concrete)."""
+    (size lines and CRLFs are pieces of their own, so framing stays concrete).  `ext` = chunk extension put on
+    every size line, e.g. b';sig=abc'."""
     out = []
     for p in pieces:
         if len(p):
-            out += [b"%x\r\n" % len(p), p, b"\r\n"]
-    return out + [b"0\r\n\r\n"]
+            out += [b"%x" % len(p) + ext + b"\r\n", p, b"\r\n"]
+    return out + [b"0" + ext + b"\r\n\r\n"]
 
 
 # ---------------------------------------------------------------------------------------------- FormsDict
@@ -514,7 +521,17 @@ def validate():
         enc = chunked_pieces(pieces)
         assert b"".join(body_mixin._iter_chunked(io.BytesIO(b"".join(enc)).read, 8)) == whole
         assert b"".join(body_mixin._iter_chunked(PieceStream(enc).read, 8)) == whole
-        n += 2
+        ext = chunked_pieces(pieces, b";sig=abc")
+        assert b"".join(ext).count(b";sig=abc") == len([p for p in pieces if p]) + 1
+        assert b"".join(body_mixin._iter_chunked(io.BytesIO(b"".join(ext)).read, 16)) == whole
+        n += 3
+    spent = PieceStream([b"x"])
+    assert spent.read(5) == b"x" and [spent.read(1) for _ in range(200)] == [b""] * 200
+    try:
+        spent.read(1)
+        raise AssertionError("PieceStream: the 201st read at EOF must fail")
+    except RuntimeError:
+        n += 1
     # ListForms against FormsDict
     from ombott.request_pkg.helpers import FormsDict
     for script in ([("a", "1"), ("b", "2"), ("a", "3")], [], [("", ""), ("x", ["1", "2"])]):
